@@ -1,532 +1,11 @@
-(* C07: the JSON form of CodeData loads back to equal data (Model/Json.v). *)
-From Coq Require Import ZArith List Bool Lia ZifyBool String.
-From PCD Require Import Base.PyBase Base.Cfg Model.Flags Model.Args Model.Data Model.Consts Model.Json
-  Proofs.ConstsProofs Proofs.C07_Statements.
-Import ListNotations. Open Scope Z_scope. Open Scope list_scope.
-Ltac Zify.zify_post_hook ::= Z.to_euclidean_division_equations.
-
-(* ------------------------------------------------------------------ *)
-(* 1. decimal text                                                      *)
-
-Lemma parse_pos_digits : forall f n acc,
-  0 <= n < 10 ^ Z.of_nat f ->
-  parse_digits (pos_digits f n acc) 0 = parse_digits acc n.
-Proof.
-  induction f as [|f IH]; intros n acc H.
-  - cbn in H. assert (n = 0) by lia. subst. reflexivity.
-  - cbn [pos_digits]. destruct (Z.ltb_spec n 10) as [L|L].
-    + cbn [parse_digits].
-      replace ((48 <=? 48 + n) && (48 + n <=? 57)) with true by lia.
-      f_equal. lia.
-    + rewrite IH.
-      * cbn [parse_digits].
-        replace ((48 <=? 48 + n mod 10) && (48 + n mod 10 <=? 57)) with true by lia.
-        f_equal. lia.
-      * rewrite Nat2Z.inj_succ, Z.pow_succ_r in H by lia. lia.
-Qed.
-
-Definition head_digit (l : str) : Prop :=
-  match l with d :: _ => 48 <= d <= 57 | [] => False end.
-
-Lemma pos_digits_head_acc : forall f n acc, 0 <= n -> head_digit acc -> head_digit (pos_digits f n acc).
-Proof.
-  induction f as [|f IH]; intros n acc Hn Ha; cbn [pos_digits]; auto.
-  destruct (Z.ltb_spec n 10).
-  - unfold head_digit. lia.
-  - apply IH; [lia|]. unfold head_digit. lia.
-Qed.
-
-Lemma pos_digits_head f n acc : 0 <= n -> head_digit (pos_digits (S f) n acc).
-Proof.
-  intros Hn. cbn [pos_digits]. destruct (Z.ltb_spec n 10).
-  - unfold head_digit. lia.
-  - apply pos_digits_head_acc; [lia|]. unfold head_digit. lia.
-Qed.
-
-Lemma parse_int_nondash d r : d <> 45 -> parse_int (d :: r) = parse_digits (d :: r) 0.
-Proof.
-  intros H. unfold parse_int.
-  destruct d as [|p|p]; try reflexivity.
-  do 6 (try (destruct p as [p|p|]; try reflexivity)). congruence.
-Qed.
-
-Lemma parse_int_dash d r : parse_int (45 :: d :: r) =
-  match parse_digits (d :: r) 0 with Some v => Some (- v) | None => None end.
-Proof. reflexivity. Qed.
-
-Lemma fuel_enough z : 0 <= z -> 0 <= z < 10 ^ Z.of_nat (Z.to_nat (Z.log2 z) + 1).
-Proof.
-  intros Hz. split; [exact Hz|].
-  pose proof (Z.log2_nonneg z) as L.
-  rewrite Nat2Z.inj_add, Z2Nat.id by exact L. cbn [Z.of_nat Pos.of_succ_nat].
-  destruct (Z.eq_dec z 0) as [->|NZ].
-  - cbn. lia.
-  - assert (z < 2 ^ (Z.log2 z + 1)).
-    { pose proof (Z.log2_spec z ltac:(lia)) as S. unfold Z.succ in S. lia. }
-    assert (2 ^ (Z.log2 z + 1) <= 10 ^ (Z.log2 z + 1)).
-    { apply Z.pow_le_mono_l. lia. }
-    lia.
-Qed.
-
-Lemma decimal_nonneg z : 0 <= z -> parse_int (decimal z) = Some z.
-Proof.
-  intros Hz. unfold decimal. replace (z <? 0) with false by lia.
-  replace (Z.to_nat (Z.log2 z) + 1)%nat with (S (Z.to_nat (Z.log2 z))) by lia.
-  pose proof (pos_digits_head (Z.to_nat (Z.log2 z)) z [] Hz) as HD.
-  pose proof (parse_pos_digits (S (Z.to_nat (Z.log2 z))) z []) as PP.
-  destruct (pos_digits (S (Z.to_nat (Z.log2 z))) z []) as [|d r]; [destruct HD|].
-  unfold head_digit in HD. rewrite parse_int_nondash by lia. rewrite PP; [reflexivity|].
-  replace (S (Z.to_nat (Z.log2 z))) with (Z.to_nat (Z.log2 z) + 1)%nat by lia.
-  now apply fuel_enough.
-Qed.
-
-Lemma decimal_neg z : z < 0 -> parse_int (decimal z) = Some z.
-Proof.
-  intros Hz. unfold decimal. replace (z <? 0) with true by lia.
-  assert (Hn : 0 <= - z) by lia. set (n := - z) in *.
-  replace (Z.to_nat (Z.log2 n) + 1)%nat with (S (Z.to_nat (Z.log2 n))) by lia.
-  pose proof (pos_digits_head (Z.to_nat (Z.log2 n)) n [] Hn) as HD.
-  pose proof (parse_pos_digits (S (Z.to_nat (Z.log2 n))) n []) as PP.
-  destruct (pos_digits (S (Z.to_nat (Z.log2 n))) n []) as [|d r]; [destruct HD|].
-  rewrite parse_int_dash, PP.
-  - cbn [parse_digits]. f_equal. lia.
-  - replace (S (Z.to_nat (Z.log2 n))) with (Z.to_nat (Z.log2 n) + 1)%nat by lia.
-    now apply fuel_enough.
-Qed.
-
-Lemma decimal_roundtrip : S_decimal_roundtrip.
-Proof.
-  intros z. destruct (Z_lt_le_dec z 0); [now apply decimal_neg | now apply decimal_nonneg].
-Qed.
-
-(* ------------------------------------------------------------------ *)
-(* 2. inner constants                                                   *)
-
-Ltac vmr := vm_compute; reflexivity.
-
-Definition QNANJ : Z := 9221120237041090560.
-Definition canon_bits (b : Z) : Z := if float_is_nan b then QNANJ else b.
-Fixpoint canon_i (k : iconst) : iconst :=
-  match k with
-  | IFloat b => IFloat (canon_bits b)
-  | IComplex r i => IComplex (canon_bits r) (canon_bits i)
-  | ITuple l => ITuple (map canon_i l)
-  | IFrozenset l => IFrozenset (map canon_i l)
-  | _ => k
-  end.
-
-Lemma float_rt b : float_from_json (float_to_json b) = OK (canon_bits b).
-Proof.
-  unfold float_to_json, canon_bits.
-  destruct (float_is_inf b) eqn:I.
-  - unfold float_is_inf in I. apply orb_true_iff in I.
-    destruct I as [I|I]; apply Z.eqb_eq in I; rewrite I; vmr.
-  - destruct (float_is_nan b) eqn:N; [vmr | reflexivity].
-Qed.
-
-Lemma as_const_float b :
-  as_const (interp_json (float_to_json b)) = OK (IFloat (canon_bits b)).
-Proof.
-  assert (E : forall j, (exists x, j = JFloat x) \/ (exists s, j = JObj [(lit "float", JStr s)]) ->
-    as_const (interp_json j) = match float_from_json j with OK x => OK (IFloat x) | Err e => Err e end).
-  { intros j [[x ->]|[s ->]]; vmr. }
-  rewrite E, float_rt; [reflexivity|].
-  unfold float_to_json. destruct (float_is_inf b); [right; eauto|].
-  destruct (float_is_nan b); [right|left]; eauto.
-Qed.
-
-Lemma as_const_int_obj s :
-  as_const (interp_json (JObj [(lit "int", JStr s)])) =
-  match parse_int s with Some z => OK (IInt z) | None => Err ValueError end.
-Proof. vmr. Qed.
-
-Lemma as_const_int z : as_const (interp_json (int_to_json z)) = OK (IInt z).
-Proof.
-  unfold int_to_json. destruct (_ || _); [|reflexivity].
-  rewrite as_const_int_obj, decimal_roundtrip. reflexivity.
-Qed.
-
-Lemma as_const_str s : as_const (interp_json (str_to_json s)) = OK (IStr s).
-Proof. unfold str_to_json. destruct (has_surrogate s); vmr. Qed.
-
-Lemma as_const_complex a b :
-  as_const (interp_json (JObj [(lit "real", a); (lit "imag", b)])) =
-  match float_from_json a, float_from_json b with
-  | OK x, OK y => OK (IComplex x y)
-  | _, _ => Err TypeError
-  end.
-Proof. vmr. Qed.
-
-Lemma as_const_bytes s : as_const (interp_json (JObj [(lit "bytes", JStr s)])) = OK (IBytes s).
-Proof. vmr. Qed.
-
-Lemma as_const_ellipsis : as_const (interp_json (JObj [(lit "type", JStr (lit "ellipsis"))])) = OK IEllipsis.
-Proof. vmr. Qed.
-
-Lemma as_const_frozenset v :
-  as_const (interp_json (JObj [(lit "frozenset", v)])) =
-  match as_const (interp_json v) with
-  | OK (ITuple l) => OK (IFrozenset l) | OK _ => Err TypeError | Err e => Err e end.
-Proof. vmr. Qed.
-
-Lemma as_const_list l :
-  as_const (interp_json (JList l)) =
-  match mapM as_const (map interp_json l) with OK ks => OK (ITuple ks) | Err e => Err e end.
-Proof. reflexivity. Qed.
-
-Lemma mapM_cons {A B} (f : A -> res B) x xs :
-  mapM f (x :: xs) = match f x with
-                     | Err e => Err e
-                     | OK y => match mapM f xs with Err e => Err e | OK ys => OK (y :: ys) end
-                     end.
-Proof. reflexivity. Qed.
-
-Lemma mapM_map_ok {A B C} (g : A -> B) (p : B -> res C) (h : A -> C) l :
-  Forall (fun x => p (g x) = OK (h x)) l -> mapM p (map g l) = OK (map h l).
-Proof.
-  induction 1 as [|x xs Hx _ IH]; [reflexivity|].
-  cbn [map]. rewrite mapM_cons, Hx, IH. reflexivity.
-Qed.
-
-Lemma iconst_rt : forall k, as_const (interp_json (iconst_to_json k)) = OK (canon_i k).
-Proof.
-  induction k as [ |b|z|f|r i|s|b| |l IH|l IH] using iconst_ind'; cbn [iconst_to_json canon_i].
-  - reflexivity.
-  - reflexivity.
-  - apply as_const_int.
-  - apply as_const_float.
-  - rewrite as_const_complex, !float_rt. reflexivity.
-  - apply as_const_str.
-  - apply as_const_bytes.
-  - apply as_const_ellipsis.
-  - rewrite as_const_list, map_map.
-    rewrite (mapM_map_ok (fun x => interp_json (iconst_to_json x)) as_const canon_i); auto.
-  - rewrite as_const_frozenset, as_const_list, map_map.
-    rewrite (mapM_map_ok (fun x => interp_json (iconst_to_json x)) as_const canon_i); auto.
-Qed.
-
-Lemma canon_bits_key b : float_key_eqb b (canon_bits b) = true.
-Proof.
-  unfold canon_bits. destruct (float_is_nan b) eqn:N.
-  - unfold float_key_eqb. rewrite N. reflexivity.
-  - apply float_key_eqb_refl.
-Qed.
-
-Lemma leqb_map_r {A} (e : A -> A -> bool) (h : A -> A) l :
-  Forall (fun x => e x (h x) = true) l -> leqb e l (map h l) = true.
-Proof. induction 1 as [|x xs Hx _ IH]; cbn; auto. now rewrite Hx, IH. Qed.
-
-Lemma fs_eqb_map_r {A} (e : A -> A -> bool) (h : A -> A) l :
-  Forall (fun x => e x (h x) = true) l -> fs_eqb e l (map h l) = true.
-Proof.
-  intros H. rewrite Forall_forall in H. apply fs_eqb_true. split.
-  - intros p Hp. exists (h p). split; [now apply in_map | now apply H].
-  - intros q Hq. apply in_map_iff in Hq as (p & <- & Hp). exists p. split; auto.
-Qed.
-
-Lemma canon_i_key : forall k, ikey_eqb k (canon_i k) = true.
-Proof.
-  induction k as [ |b|z|f|r i|s|b| |l IH|l IH] using iconst_ind'; cbn [canon_i];
-    try apply ikey_eqb_refl.
-  - cbn [ikey_eqb]. apply canon_bits_key.
-  - cbn [ikey_eqb]. now rewrite !canon_bits_key.
-  - rewrite ikey_eqb_tuple. now apply leqb_map_r.
-  - rewrite ikey_eqb_frozenset. now apply fs_eqb_map_r.
-Qed.
-
-Lemma iconst_roundtrip : S_iconst_roundtrip.
-Proof. intros k. exists (canon_i k). split; [apply iconst_rt | apply canon_i_key]. Qed.
-
-(* ------------------------------------------------------------------ *)
-(* 5. the JSON form is strict JSON                                      *)
-
-Definition plainf (f : list (str * json)) : bool := forallb (fun kv => json_plain (snd kv)) f.
-
-Lemma json_plain_obj f : json_plain (JObj f) = plainf f.
-Proof.
-  induction f as [|[k v] r IH]; [reflexivity|].
-  change (json_plain (JObj ((k, v) :: r))) with (json_plain v && json_plain (JObj r)).
-  rewrite IH. reflexivity.
-Qed.
-
-Lemma json_plain_list l : json_plain (JList l) = forallb json_plain l.
-Proof.
-  induction l as [|x r IH]; [reflexivity|].
-  change (json_plain (JList (x :: r))) with (json_plain x && json_plain (JList r)).
-  rewrite IH. reflexivity.
-Qed.
-
-Lemma plainf_app a b : plainf (a ++ b) = plainf a && plainf b.
-Proof. apply forallb_app. Qed.
-
-Lemma plainf_cons k v r : plainf ((k, v) :: r) = json_plain v && plainf r.
-Proof. reflexivity. Qed.
-
-Lemma plain_list_map {A} (f : A -> json) l :
-  Forall (fun x => json_plain (f x) = true) l -> json_plain (JList (map f l)) = true.
-Proof.
-  intros H. rewrite json_plain_list, forallb_forall. intros j Hj.
-  apply in_map_iff in Hj as (x & <- & Hx). rewrite Forall_forall in H. now apply H.
-Qed.
-
-Lemma plainf_opt_field {A} n (f : A -> json) o :
-  (forall x, json_plain (f x) = true) -> plainf (opt_field n f o) = true.
-Proof. intros H. destruct o; cbn; auto. now rewrite H. Qed.
-
-Lemma plainf_list_field_F {A} n (f : A -> json) l :
-  Forall (fun x => json_plain (f x) = true) l -> plainf (list_field n f l) = true.
-Proof.
-  intros H. destruct l as [|x r]; [reflexivity|].
-  unfold list_field. rewrite plainf_cons, plain_list_map by exact H. reflexivity.
-Qed.
-
-Lemma plainf_list_field {A} n (f : A -> json) l :
-  (forall x, json_plain (f x) = true) -> plainf (list_field n f l) = true.
-Proof. intros H. apply plainf_list_field_F. apply Forall_forall. auto. Qed.
-
-Lemma plainf_bool_field n b : plainf (bool_field n b) = true.
-Proof. now destruct b. Qed.
-
-Lemma plain_int z : json_plain (int_to_json z) = true.
-Proof.
-  unfold int_to_json. destruct (_ || _) eqn:E; [reflexivity|].
-  cbn [json_plain]. unfold small. lia.
-Qed.
-
-Lemma plain_float b : json_plain (float_to_json b) = true.
-Proof.
-  unfold float_to_json. destruct (float_is_inf b) eqn:I; [reflexivity|].
-  destruct (float_is_nan b) eqn:N; [reflexivity|]. cbn [json_plain]. now rewrite I, N.
-Qed.
-
-Lemma plain_str s : json_plain (str_to_json s) = true.
-Proof. unfold str_to_json. now destruct (has_surrogate s). Qed.
-
-Lemma plain_iconst : forall k, json_plain (iconst_to_json k) = true.
-Proof.
-  induction k as [ |b|z|f|r i|s|b| |l IH|l IH] using iconst_ind'; cbn [iconst_to_json];
-    try reflexivity.
-  - apply plain_int.
-  - apply plain_float.
-  - rewrite json_plain_obj, !plainf_cons, !plain_float. reflexivity.
-  - apply plain_str.
-  - now apply plain_list_map.
-  - rewrite json_plain_obj, plainf_cons, plain_list_map by exact IH. reflexivity.
-Qed.
-
-Lemma plain_args a : json_plain (args_to_json a) = true.
-Proof.
-  unfold args_to_json. rewrite json_plain_obj, !plainf_app,
-    !plainf_list_field, !plainf_opt_field by apply plain_str. reflexivity.
-Qed.
-
-Lemma plain_function f : json_plain (function_to_json f) = true.
-Proof.
-  unfold function_to_json. rewrite json_plain_obj, !plainf_app.
-  rewrite plainf_opt_field by apply plain_str.
-  rewrite plainf_opt_field by reflexivity.
-  destruct (args_is_default (fn_args f)); [reflexivity|].
-  rewrite plainf_cons, plain_args. reflexivity.
-Qed.
-
-Lemma plain_addline a : json_plain (addline_to_json a) = true.
-Proof.
-  unfold addline_to_json. rewrite json_plain_obj, plainf_cons.
-  rewrite plainf_list_field by apply plain_int.
-  destruct (al_line a); [now rewrite plain_int | reflexivity].
-Qed.
-
-Section PlainData.
-  Context {C : Type} (cj : C -> json).
-  Let PC (c : C) : Prop := json_plain (cj c) = true.
-
-  Lemma plain_arg a : argP PC a -> json_plain (arg_to_json cj a) = true.
-  Proof.
-    destruct a; cbn [arg_to_json argP]; intros H; try apply plain_int;
-      rewrite json_plain_obj, ?plainf_cons, ?plain_int, ?plain_str, ?plainf_bool_field,
-        ?plainf_opt_field by apply plain_int; try reflexivity.
-    - rewrite H. reflexivity.
-    - destruct (z =? 0); [reflexivity|]. now rewrite plainf_cons, plain_int.
-  Qed.
-
-  Lemma plain_instr i : instrP PC i -> json_plain (instr_to_json cj i) = true.
-  Proof.
-    intros H. unfold instr_to_json. rewrite json_plain_obj, plainf_cons, !plainf_app.
-    rewrite !plainf_opt_field by apply plain_int.
-    rewrite plainf_list_field by apply plain_int.
-    destruct (arg_is_default (i_arg i)); [reflexivity|].
-    rewrite plainf_cons, plain_arg by exact H. reflexivity.
-  Qed.
-
-  Lemma plain_cd d : cdP PC d -> json_plain (cd_to_json_with cj d) = true.
-  Proof.
-    intros [HB HA]. unfold cd_to_json_with. rewrite json_plain_obj, !plainf_app.
-    rewrite !plainf_cons, !plain_int, !plain_str.
-    rewrite plainf_opt_field by apply plain_function.
-    rewrite plainf_list_field by apply plain_str.
-    rewrite !plainf_bool_field.
-    rewrite plainf_opt_field by apply plain_addline.
-    rewrite plainf_list_field_F.
-    2:{ eapply Forall_impl; [|exact HA]. apply plain_arg. }
-    rewrite plain_list_map; [reflexivity|].
-    eapply Forall_impl; [|exact HB]. intros b Hb. apply plain_list_map.
-    eapply Forall_impl; [|exact Hb]. apply plain_instr.
-  Qed.
-End PlainData.
-
-Lemma plain_const : forall k, json_plain (const_to_json k) = true.
-Proof.
-  induction k as [i|d IH] using const_ind'; cbn [const_to_json].
-  - apply plain_iconst.
-  - now apply plain_cd.
-Qed.
-
-(* holds for every CodeData: big ints and special floats are always written as objects *)
-Theorem json_plain_all d : json_plain (code_data_to_json d) = true.
-Proof. apply (plain_cd const_to_json). apply cdP_all. exact plain_const. Qed.
-
-Theorem json_plain_thm : S_json_plain.
-Proof. intros d _. apply json_plain_all. Qed.
-
-(* ------------------------------------------------------------------ *)
-(* 3. CodeData: objects with hidden defaults                            *)
-
-(* a field that is present or hidden *)
-Definition ofield (n : string) (o : option json) : list (str * json) :=
-  match o with Some j => [(lit n, j)] | None => [] end.
-Definition lfo {A} (f : A -> json) (l : list A) : option json :=
-  match l with [] => None | _ => Some (JList (map f l)) end.
-Definition bfo (b : bool) : option json := if b then Some (JBool true) else None.
-
-Lemma opt_field_ofield {A} n (f : A -> json) o : opt_field n f o = ofield n (option_map f o).
-Proof. now destruct o. Qed.
-Lemma list_field_ofield {A} n (f : A -> json) l : list_field n f l = ofield n (lfo f l).
-Proof. now destruct l. Qed.
-Lemma bool_field_ofield n b : bool_field n b = ofield n (bfo b).
-Proof. now destruct b. Qed.
-Lemma if_ofield (c : bool) n v :
-  (if c then [] else [(lit n, v)]) = ofield n (if c then None else Some v).
-Proof. now destruct c. Qed.
-
-(* the readers of such fields *)
-Definition omapM {A} (p : json -> res A) (o : option json) : res (option A) :=
-  match o with
-  | None => OK None
-  | Some j => match p j with OK v => OK (Some v) | Err e => Err e end
-  end.
-Definition odef {A} (p : json -> res A) (d : A) (o : option json) : res A :=
-  match o with None => OK d | Some j => p j end.
-Definition boolp (j : json) : res bool := match j with JBool b => OK b | _ => Err TypeError end.
-
-(* reading an object, field values abstract *)
-Lemma args_read a b c d e :
-  args_from_json (JObj (ofield "positional_only" a ++ ofield "positional_or_keyword" b
-                        ++ ofield "var_positional" c ++ ofield "keyword_only" d
-                        ++ ofield "var_keyword" e)) =
-  match odef strings_from_json [] a, odef strings_from_json [] b, omapM string_from_json c,
-        odef strings_from_json [] d, omapM string_from_json e with
-  | OK a, OK b, OK c, OK d, OK e =>
-      OK {| a_posonly := a; a_poskw := b; a_varpos := c; a_kwonly := d; a_varkw := e |}
-  | _, _, _, _, _ => Err TypeError
-  end.
-Proof. destruct a, b, c, d, e; vmr. Qed.
-
-Lemma function_read a d t :
-  function_from_json (JObj (ofield "args" a ++ ofield "docstring" d ++ ofield "type" t)) =
-  match odef args_from_json empty_args a, omapM string_from_json d, omapM fntype_from_json t with
-  | OK a, OK d, OK t => OK (mkFunction a d t)
-  | _, _, _ => Err TypeError
-  end.
-Proof. destruct a, d, t; vmr. Qed.
-
-Lemma addline_read l o :
-  addline_from_json (JObj ((lit "line", l) :: ofield "additional_offsets" o)) =
-  match l with
-  | JNull => match odef ints_from_json [] o with OK o => OK (mkAddline None o) | Err e => Err e end
-  | JInt l => match odef ints_from_json [] o with OK o => OK (mkAddline (Some l) o) | Err e => Err e end
-  | _ => Err TypeError
-  end.
-Proof. destruct o; vmr. Qed.
-
-Definition is_code (raw : json) : bool :=
-  match raw with JObj g => jhas g "filename" | _ => false end.
-
-Lemma arg_read_int z : as_arg (interp_json (JInt z)) = OK (AInt z).
-Proof. reflexivity. Qed.
-
-Lemma arg_read_jump t ro :
-  as_arg (interp_json (JObj ((lit "target", JInt t) :: ofield "relative" ro))) =
-  match odef boolp false ro with OK r => OK (AJump t r) | Err _ => Err TypeError end.
-Proof. destruct ro; vmr. Qed.
-
-Lemma arg_read_name sj ov :
-  as_arg (interp_json (JObj ((lit "name", sj) :: ofield "_index_override" ov))) =
-  match string_from_json sj, omapM int_from_json ov with
-  | OK s, OK ov => OK (AName s ov) | _, _ => Err TypeError end.
-Proof. destruct ov; vmr. Qed.
-
-Lemma arg_read_varname sj ov :
-  as_arg (interp_json (JObj ((lit "varname", sj) :: ofield "_index_override" ov))) =
-  match string_from_json sj, omapM int_from_json ov with
-  | OK s, OK ov => OK (AVarname s ov) | _, _ => Err TypeError end.
-Proof. destruct ov; vmr. Qed.
-
-Lemma arg_read_cellvar sj ov :
-  as_arg (interp_json (JObj ((lit "cellvar", sj) :: ofield "_index_override" ov))) =
-  match string_from_json sj, omapM int_from_json ov with
-  | OK s, OK ov => OK (ACellvar s ov) | _, _ => Err TypeError end.
-Proof. destruct ov; vmr. Qed.
-
-Lemma arg_read_freevar sj :
-  as_arg (interp_json (JObj [(lit "freevar", sj)])) =
-  match string_from_json sj with OK s => OK (AFreevar s) | Err _ => Err TypeError end.
-Proof. vmr. Qed.
-
-Lemma arg_read_noarg z : as_arg (interp_json (JObj [(lit "_arg", JInt z)])) = OK (ANoArg z).
-Proof. vmr. Qed.
-
-Lemma arg_read_const raw ov :
-  as_arg (interp_json (JObj ((lit "constant", raw) :: ofield "_index_override" ov))) =
-  match omapM int_from_json ov with
-  | OK ov =>
-      if is_code raw
-      then match as_cd (interp_json raw) with OK d => OK (AConst (KCode d) ov) | Err e => Err e end
-      else match as_const (interp_json raw) with OK k => OK (AConst (KInner k) ov) | Err e => Err e end
-  | Err _ => Err TypeError
-  end.
-Proof. destruct ov; vmr. Qed.
-
-Lemma instr_read nm argo nargs line offs :
-  as_instr (interp_json (JObj ((lit "name", nm) :: ofield "arg" argo
-                               ++ ofield "_n_args_override" nargs ++ ofield "line_number" line
-                               ++ ofield "_line_offsets_override" offs))) =
-  match nm with
-  | JStr [n] =>
-      match (match argo with Some c => as_arg (interp_json c) | None => OK (ANoArg 0) end),
-            omapM int_from_json nargs, omapM int_from_json line, odef ints_from_json [] offs with
-      | OK a, OK n_, OK l, OK o => OK (mkInstr n a n_ l o)
-      | Err e, _, _, _ => Err e
-      | _, _, _, _ => Err TypeError
-      end
-  | _ => Err TypeError
-  end.
-Proof. destruct argo, nargs, line, offs; vmr. Qed.
-
-Lemma cd_read b fnm fl nm ss ty fv fa ne al aa :
-  as_cd (interp_json (JObj ([(lit "blocks", b); (lit "filename", fnm);
-                             (lit "first_line_number", JInt fl); (lit "name", nm);
-                             (lit "stacksize", JInt ss)]
-                            ++ ofield "type" ty ++ ofield "freevars" fv
-                            ++ ofield "future_annotations" fa ++ ofield "_nested" ne
-                            ++ ofield "_additional_line" al ++ ofield "_additional_args" aa))) =
-  match as_blocks (interp_json b), string_from_json fnm, string_from_json nm,
-        omapM function_from_json ty, odef strings_from_json [] fv, odef boolp false fa,
-        odef boolp false ne, omapM addline_from_json al,
-        (match aa with Some c => as_args (interp_json c) | None => OK [] end) with
-  | OK blocks, OK filename, OK name, OK tp, OK fv, OK fa, OK ne, OK al, OK aa =>
-      OK (mkCD blocks filename fl name ss tp fv fa ne al aa)
-  | Err e, _, _, _, _, _, _, _, _ => Err e
-  | _, _, _, _, _, _, _, _, Err e => Err e
-  | _, _, _, _, _, _, _, _, _ => Err TypeError
-  end.
-Proof. destruct ty, fv, fa, ne, al, aa; vmr. Qed.
+(* C07: JSON form round trip.  The proofs are in JsonProofs1.v (decimal text, inner constants,
+   strict JSON, object readers) and JsonProofs2.v (CodeData round trip); compile those two first. *)
+From PCD Require Import Model.Json Proofs.C07_Statements.
+From PCD Require Export Proofs.JsonProofs1 Proofs.JsonProofs2.
+
+Check (decimal_roundtrip : S_decimal_roundtrip).
+Check (iconst_roundtrip : S_iconst_roundtrip).
+Check (json_roundtrip : S_json_roundtrip).
+Check (json_roundtrip_exact : S_json_roundtrip_exact).
+Check (json_plain_thm : S_json_plain).
+Print Assumptions C07_all.
